@@ -15,6 +15,23 @@
  *                                  leaves s and p hold the string and the pattern: 1 / 0, E (evaluation failed with
  *                                  LY_EVALID: pattern rejected), L (failed otherwise: the matcher gave up), V (string or
  *                                  pattern is not a valid value of a YANG string leaf)
+ *   typeset <string> (L [G<length>] (<inv> <pattern>)...)...  -> pattern SETS over a typedef chain; "L" starts the next
+ *                                  level, an optional field G<argument> gives the level a length statement: the first
+ *                                  level is typedef t1 on string, level i is typedef ti on t(i-1), the last level is the
+ *                                  type statement T = "type t(n-1) {patterns}" used by the data nodes. Answer
+ *                                  "<e> <l> <ll> <u> <k> <lt> <lt2>": e = conjunction over ALL patterns of ly_pattern_match()
+ *                                  XOR inv and of (number of characters in the length of the last level that has one); then lyd_value_validate() on leaf l {T}, leaf-list ll {T}, leaf u {type union
+ *                                  {T}}, list key k {T}, leaf lt {type tt} with typedef tt {T}, leaf lt2 {type tt2} with
+ *                                  typedef tt2 {type tt}: 1 / 0 / E (module rejected) / L (matcher failed)
+ *   yangre <string> (<inv> <pattern>)+  -> "<e> <l> <p> <fl> <fc> <fn>": e = conjunction of ly_pattern_match() XOR inv, l =
+ *                                  lyd_value_validate() on a leaf with all the patterns, then the yangre tool of the same
+ *                                  build (../yangre relative to the driver's directory) run as a process: p = command line
+ *                                  (-p 'pattern' [-i] ... -- string), fl / fc / fn = -f <file> with LF line ends, CRLF line
+ *                                  ends, LF line ends and no line end after the string (an empty string: fl and fc give it
+ *                                  as an empty line after the separator line, fn ends the file after the separator line).
+ *                                  1 = exit status 0, 0 = exit status 2, E = exit status 1, C = anything else, - = the case
+ *                                  cannot be written in that mode (quote in a pattern, line end inside pattern or string,
+ *                                  string ending in CR before a line end)
  *
  * Linked with --wrap=pcre2_compile_8: __wrap_pcre2_compile_8 records the pattern text and calls the real function.
  * VERIF_FLAGS: -Wl,--wrap=pcre2_compile_8
@@ -25,6 +42,11 @@
 #include <pcre2.h>
 
 #include "libyang.h"
+
+#include <fcntl.h>
+#include <sys/types.h>
+#include <sys/wait.h>
+#include <unistd.h>
 
 static char *seen_pat = NULL;
 static size_t seen_len = 0;
@@ -148,6 +170,259 @@ validate(int n, char **invs, char **pats, const char *str, size_t slen)
     return (r == LY_SUCCESS) ? '1' : ((r == LY_EVALID) ? '0' : 'L');
 }
 
+/* typeset: module with a typedef chain, cached on the fields that describe it */
+#define TS_NODES 6
+static struct ly_ctx *tctx = NULL;
+static char *tkey = NULL;
+static const struct lysc_node *tnodes[TS_NODES];
+static int tok = 0;
+
+static int
+typeset_module(int nf, char **f)
+{
+    static const char *paths[TS_NODES] = {"/m:l", "/m:ll", "/m:u", "/m:L/k", "/m:lt", "/m:lt2"};
+    size_t klen = 1, tlen = 1024;
+    char *key, *txt, *p, *T;
+    int nlev = 0, lev, i;
+    struct lys_module *mod = NULL;
+
+    for (i = 0; i < nf; i++) {
+        klen += strlen(f[i]) + 1;
+        tlen += strlen(f[i]) + 96;
+    }
+    key = malloc(klen);
+    key[0] = 0;
+    for (i = 0; i < nf; i++) {
+        strcat(key, f[i]);
+        strcat(key, " ");
+    }
+    if (tkey && !strcmp(tkey, key)) {
+        free(key);
+        return tok;
+    }
+    ly_ctx_destroy(tctx);
+    tctx = NULL;
+    tok = 0;
+    free(tkey);
+    tkey = key;
+    if (ly_ctx_new(NULL, 0, &tctx)) {
+        return 0;
+    }
+    for (i = 0; i < nf; i++) {
+        if (!strcmp(f[i], "L")) {
+            nlev++;
+        }
+    }
+    if (!nlev || strcmp(f[0], "L")) {
+        nlev++;                 /* fields before the first L form a level of their own */
+    }
+    txt = malloc(tlen * 8);
+    T = malloc(tlen);
+    p = txt + sprintf(txt, "module m {yang-version 1.1; namespace \"urn:m\"; prefix m;");
+    lev = 0;
+    i = (nf && !strcmp(f[0], "L")) ? 1 : 0;
+    while (lev < nlev) {
+        char *q = T;
+
+        lev++;
+        if (lev == 1) {
+            q += sprintf(q, "type string");
+        } else {
+            q += sprintf(q, "type t%d", lev - 1);
+        }
+        if ((i < nf) && strcmp(f[i], "L")) {
+            q += sprintf(q, " {");
+            while ((i < nf) && strcmp(f[i], "L")) {
+                if (f[i][0] == 'G') {
+                    /* length statement of this level: G<argument> */
+                    q += sprintf(q, " length \"%s\";", f[i] + 1);
+                    i++;
+                } else if (i + 1 < nf) {
+                    size_t len;
+                    char *pat = vunhex(f[i + 1], &len);
+
+                    q = put_pattern(q, pat, len, f[i][0] == '1');
+                    free(pat);
+                    i += 2;
+                } else {
+                    i++;
+                }
+            }
+            q += sprintf(q, "}");
+        } else {
+            q += sprintf(q, ";");
+        }
+        *q = 0;
+        if ((i < nf) && !strcmp(f[i], "L")) {
+            i++;
+        }
+        if (lev < nlev) {
+            p += sprintf(p, " typedef t%d {%s}", lev, T);
+        }
+    }
+    p += sprintf(p, " typedef tt {%s} typedef tt2 {type tt;}", T);
+    p += sprintf(p, " leaf l {%s} leaf-list ll {%s} leaf u {type union {%s}} list L {key k; leaf k {%s}}"
+            " leaf lt {type tt;} leaf lt2 {type tt2;}}", T, T, T, T);
+    if (!lys_parse_mem(tctx, txt, LYS_IN_YANG, &mod) && mod && mod->compiled) {
+        tok = 1;
+        for (i = 0; i < TS_NODES; i++) {
+            tnodes[i] = lys_find_path(tctx, NULL, paths[i], 0);
+            if (!tnodes[i]) {
+                tok = 0;
+            }
+        }
+    }
+    ly_err_clean(tctx, NULL);
+    free(txt);
+    free(T);
+    return tok;
+}
+
+/* ---- the yangre tool of the same build ---- */
+static char yangre_path[4096] = "";
+
+static const char *
+yangre_exe(void)
+{
+    if (!yangre_path[0]) {
+        char buf[4000];
+        ssize_t n = readlink("/proc/self/exe", buf, sizeof buf - 1);
+        char *sl;
+
+        if (n <= 0) {
+            return NULL;
+        }
+        buf[n] = 0;
+        if ((sl = strrchr(buf, '/'))) {         /* .../drv/t_regex-xxxx -> .../drv */
+            *sl = 0;
+        }
+        if ((sl = strrchr(buf, '/'))) {         /* .../drv -> ... */
+            *sl = 0;
+        }
+        snprintf(yangre_path, sizeof yangre_path, "%s/yangre", buf);
+    }
+    return access(yangre_path, X_OK) ? NULL : yangre_path;
+}
+
+static char
+run_argv(char **argv)
+{
+    pid_t pid = fork();
+    int st = 0;
+
+    if (pid < 0) {
+        return 'C';
+    }
+    if (!pid) {
+        int fd = open("/dev/null", O_WRONLY);
+
+        if (fd >= 0) {
+            dup2(fd, 1);
+            dup2(fd, 2);
+        }
+        execv(argv[0], argv);
+        _exit(99);
+    }
+    if (waitpid(pid, &st, 0) < 0) {
+        return 'C';
+    }
+    if (!WIFEXITED(st)) {
+        return 'C';
+    }
+    switch (WEXITSTATUS(st)) {
+    case 0:
+        return '1';
+    case 2:
+        return '0';
+    case 1:
+        return 'E';
+    default:
+        return 'C';
+    }
+}
+
+/* mode: 'p' command line, 'l' file LF, 'c' file CRLF, 'n' file LF without a line end after the string */
+static char
+run_yangre(char mode, int n, char **invs, char **pats, const char *str, size_t slen)
+{
+    const char *exe = yangre_exe();
+    char **plain = calloc(n, sizeof *plain), res = '-';
+    char *argv[3 * VMAXF / 2 + 8];
+    int i, ok = 1, argc = 0;
+    char fname[128];
+
+    if (!exe) {
+        free(plain);
+        return '?';
+    }
+    for (i = 0; i < n; i++) {
+        size_t len;
+        char *pat = vunhex(pats[i], &len);
+
+        plain[i] = malloc(len + 3);
+        sprintf(plain[i], "'%s'", pat);
+        if (memchr(pat, '\'', len) || (strlen(pat) != len) || ((mode != 'p') && (memchr(pat, '\n', len) || memchr(pat, '\r', len)))) {
+            ok = 0;
+        }
+        free(pat);
+    }
+    if (strlen(str) != slen) {
+        ok = 0;
+    }
+    if ((mode != 'p') && memchr(str, '\n', slen)) {
+        ok = 0;
+    }
+    if (((mode == 'l') || (mode == 'c')) && slen && (str[slen - 1] == '\r')) {
+        ok = 0;
+    }
+    if (ok && (mode == 'p')) {
+        argv[argc++] = (char *)exe;
+        for (i = 0; i < n; i++) {
+            argv[argc++] = "-p";
+            argv[argc++] = plain[i];
+            if (invs[i][0] == '1') {
+                argv[argc++] = "-i";
+            }
+        }
+        argv[argc++] = "--";
+        argv[argc++] = (char *)str;
+        argv[argc] = NULL;
+        res = run_argv(argv);
+    } else if (ok) {
+        const char *nl = (mode == 'c') ? "\r\n" : "\n";
+        FILE *f;
+
+        snprintf(fname, sizeof fname, "/tmp/t_regex_%d.yre", (int)getpid());
+        f = fopen(fname, "wb");
+        if (f) {
+            for (i = 0; i < n; i++) {
+                fprintf(f, "%s%s%s", (invs[i][0] == '1') ? " " : "", plain[i], nl);
+            }
+            fprintf(f, "%s", nl);
+            if (slen || (mode != 'n')) {
+                fwrite(str, 1, slen, f);
+                if (mode != 'n') {
+                    fprintf(f, "%s", nl);
+                }
+            }
+            fclose(f);
+            argv[0] = (char *)exe;
+            argv[1] = "-f";
+            argv[2] = fname;
+            argv[3] = NULL;
+            res = run_argv(argv);
+            unlink(fname);
+        } else {
+            res = '?';
+        }
+    }
+    for (i = 0; i < n; i++) {
+        free(plain[i]);
+    }
+    free(plain);
+    return res;
+}
+
 /* XPath re-match(): context with two string leaves, the arguments are taken from a data tree */
 static struct ly_ctx *xctx = NULL;
 
@@ -237,6 +512,119 @@ main(void)
                 free(str);
             }
             free(pat);
+        } else if (!strcmp(comp, "typeset") && (c.nf >= 2)) {
+            size_t slen;
+            char *str = vunhex(c.f[1], &slen);
+            char e = '1';
+
+            const char *glen = NULL;
+
+            for (int i = 2; i < c.nf; ) {
+                size_t plen;
+                char *pat;
+                LY_ERR r;
+
+                if (!strcmp(c.f[i], "L")) {
+                    i++;
+                    continue;
+                }
+                if (c.f[i][0] == 'G') {
+                    glen = c.f[i] + 1;          /* the effective length is the statement of the last level that has one */
+                    i++;
+                    continue;
+                }
+                if (i + 1 >= c.nf) {
+                    break;
+                }
+                pat = vunhex(c.f[i + 1], &plen);
+                r = ly_pattern_match(ctx, pat, str, (uint32_t)slen, NULL);
+                ly_err_clean(ctx, NULL);
+                free(pat);
+                if ((r != LY_SUCCESS) && (r != LY_ENOT)) {
+                    e = (r == LY_EVALID) ? 'E' : 'L';
+                    break;
+                }
+                if ((r == LY_SUCCESS) == (c.f[i][0] == '1')) {
+                    e = '0';
+                }
+                i += 2;
+            }
+            if (glen && (e == '1')) {
+                /* number of characters (not continuation bytes) against the parts a..b | a of the length argument */
+                unsigned long n = 0, lo, hi;
+                const char *g = glen;
+                int in = 0;
+
+                for (size_t k = 0; k < slen; k++) {
+                    n += (((unsigned char)str[k]) & 0xC0) != 0x80;
+                }
+                while (*g) {
+                    char *end;
+
+                    lo = hi = strtoul(g, &end, 10);
+                    g = end;
+                    if ((g[0] == '.') && (g[1] == '.')) {
+                        hi = strtoul(g + 2, &end, 10);
+                        g = end;
+                    }
+                    if ((lo <= n) && (n <= hi)) {
+                        in = 1;
+                    }
+                    if (*g == '|') {
+                        g++;
+                    } else {
+                        break;
+                    }
+                }
+                if (!in) {
+                    e = '0';
+                }
+            }
+            printf("%c", e);
+            if (!typeset_module(c.nf - 2, c.f + 2)) {
+                printf(" E E E E E E");
+            } else {
+                for (int i = 0; i < TS_NODES; i++) {
+                    LY_ERR r = lyd_value_validate(tctx, tnodes[i], str, slen, NULL, NULL, NULL);
+
+                    ly_err_clean(tctx, NULL);
+                    printf(" %c", (r == LY_SUCCESS) ? '1' : ((r == LY_EVALID) ? '0' : 'L'));
+                }
+            }
+            free(str);
+        } else if (!strcmp(comp, "yangre") && (c.nf >= 4)) {
+            size_t slen;
+            char *str = vunhex(c.f[1], &slen), *invs[VMAXF], *pats[VMAXF];
+            char e = '1';
+            int n = 0;
+
+            for (int i = 2; i + 1 < c.nf; i += 2) {
+                invs[n] = c.f[i];
+                pats[n++] = c.f[i + 1];
+            }
+            for (int i = 0; i < n; i++) {
+                size_t plen;
+                char *pat = vunhex(pats[i], &plen);
+                LY_ERR r = ly_pattern_match(ctx, pat, str, (uint32_t)slen, NULL);
+
+                /* ly_pattern_match() takes str_len 0 for "use strlen()", which is what an empty string needs */
+                ly_err_clean(ctx, NULL);
+                free(pat);
+                if ((r != LY_SUCCESS) && (r != LY_ENOT)) {
+                    e = (r == LY_EVALID) ? 'E' : 'L';
+                    break;
+                }
+                if ((r == LY_SUCCESS) == (invs[i][0] == '1')) {
+                    e = '0';
+                }
+            }
+            printf("%c %c", e, validate(n, invs, pats, str, slen));
+            fflush(stdout);
+            printf(" %c", run_yangre('p', n, invs, pats, str, slen));
+            printf(" %c", run_yangre('l', n, invs, pats, str, slen));
+            printf(" %c", run_yangre('c', n, invs, pats, str, slen));
+            printf(" %c", run_yangre('n', n, invs, pats, str, slen));
+            free(str);
         } else if (!strcmp(comp, "matchlist") && (c.nf >= 2)) {
             size_t slen;
             char *str = vunhex(c.f[1], &slen), *invs[VMAXF], *pats[VMAXF];
@@ -254,6 +642,8 @@ main(void)
         VEND();
     }
     ly_ctx_destroy(mctx);
+    ly_ctx_destroy(tctx);
+    free(tkey);
     ly_ctx_destroy(xctx);
     ly_ctx_destroy(ctx);
     free(seen_pat);
